@@ -170,6 +170,34 @@ def run(prog: Program, rep, tier="quick"):
            "as `have`: the server omits it and everything below it, leaving the client with a parent it does not hold",
            g.nodes[rets[0]].line)
     rep.floor("R05.4", 3)
+    # ---- R05.5 "apart from tags it follows automatically at the client's request, nothing outside the closure"
+    rep.rule("R05.5", "automatic tag following only at the client's request: the tag map is non-empty only behind the include-tag capability; "
+                      "a tag is enqueued only for an object that is itself being sent")
+    sm = prog.module("dulwich/server.py")
+    gt = sm.funcs.get("UploadPackHandler.get_tagged")
+    if gt is None:
+        raise AnalysisError("UploadPackHandler.get_tagged not found")
+    g = cfg_of(prog, gt)
+    cap = [i for i, n in g.nodes.items() if n.kind == "test" and isinstance(n.ast, ast.Call) and callee_name(n.ast) == "has_capability"
+           and any("INCLUDE_TAG" in norm(a) for a in n.ast.args)]
+    nonempty = [i for i, n in g.nodes.items() if n.kind == "stmt" and isinstance(n.ast, ast.Return) and n.ast.value is not None
+                and not (isinstance(n.ast.value, ast.Dict) and not n.ast.value.keys)]
+    r = reach(g, [g.entry], include_srcs=True, edge_ok=lambda a, b, l: not (a in cap and l == "true"))
+    rep.ob("R05.5", sm.rel, gt.qual, "a non-empty tag map is returned only when the client sent include-tag", bool(cap) and bool(nonempty)
+           and not any(x in r for x in nonempty),
+           "tags are added to the pack although the client did not ask for them: objects outside the closure of the wants are sent",
+           gt.node.lineno)
+    g = cfg_of(prog, nx)
+    tag_adds = [i for i, n in g.nodes.items() for c in node_calls(n) if callee_name(c) == "add_todo" and "_tagged" in norm(c)]
+    memb = [i for i, n in g.nodes.items() if n.kind == "test" and isinstance(n.ast, ast.Compare) and isinstance(n.ast.ops[0], ast.In)
+            and norm(n.ast.comparators[0]) == "self._tagged"]
+    r = reach(g, [g.entry], include_srcs=True, edge_ok=lambda a, b, l: not (a in memb and l == "true"))
+    rep.ob("R05.5", OS_PY, nx.qual, "a tag is enqueued only when the object being returned is its target (membership in the tag map)",
+           bool(tag_adds) and bool(memb) and not any(x in r for x in tag_adds) and all(norm(g.nodes[i].ast.left) == "sha" for i in memb),
+           "", nx.node.lineno)
+    fm = prog.func(OS_PY, "MissingObjectFinder.__init__")
+    rep.ob("R05.5", OS_PY, fm.qual, "the tag map comes from the caller's get_tagged (empty when none is given)",
+           "self._tagged = get_tagged and get_tagged() or {}" in norm(fm.node, 200000), "", fm.node.lineno)
     rep.floor("R05.3", 7)
     rep.floor("R05.1", 3)
     rep.floor("R05.2", 5)
